@@ -819,7 +819,7 @@ func (ff *FnFacts) Returns() []ReturnInfo {
 		info := ReturnInfo{Ret: ret, Class: RetSuccess, Facts: facts}
 		switch {
 		case ei >= 0:
-			ev := ret.Results[ei]
+			ev := RetOp(ret, ei)
 			possible, extra := ff.nilErr(ev, facts)
 			if !possible {
 				info.Class = RetFail
@@ -829,7 +829,7 @@ func (ff *FnFacts) Returns() []ReturnInfo {
 				}
 			}
 		case boolOnly:
-			rv := ret.Results[0]
+			rv := RetOp(ret, 0)
 			if c, ok := rv.(*ssa.Const); ok {
 				if c.Value.String() != "true" {
 					info.Class = RetFail
@@ -943,7 +943,7 @@ func (e *Engine) Summary(fn *ssa.Function, ctx Ctx) *Summary {
 			set.add(f)
 		}
 		for i := 0; i < nres && i < len(r.Ret.Results); i++ {
-			t := ff.TB.Of(r.Ret.Results[i])
+			t := ff.TB.Of(RetOp(r.Ret, i))
 			if resTerms[i] == nil {
 				resTerms[i] = t
 			} else if resTerms[i].String() != t.String() {
@@ -1046,7 +1046,7 @@ func (ff *FnFacts) resultFieldFacts(ret *ssa.Return) []Fact {
 		return nil
 	}
 	var out []Fact
-	switch rv := ret.Results[0].(type) {
+	switch rv := RetOp(ret, 0).(type) {
 	case *ssa.Alloc:
 		if derefStruct(rv.Type()) == nil {
 			return nil
@@ -1081,4 +1081,33 @@ func (ff *FnFacts) resultFieldFacts(ret *ssa.Return) []Fact {
 		}
 	}
 	return out
+}
+
+// RetOp returns the i-th result operand of ret, looking through the result
+// spill go/ssa introduces in functions with defers (store to a result alloc,
+// rundefers, load, return).
+func RetOp(ret *ssa.Return, i int) ssa.Value {
+	v := ret.Results[i]
+	u, ok := v.(*ssa.UnOp)
+	if !ok || u.Op != token.MUL {
+		return v
+	}
+	al, ok := u.X.(*ssa.Alloc)
+	if !ok {
+		return v
+	}
+	// last store to the alloc in the return's block before the load
+	var last ssa.Value
+	for _, ins := range ret.Block().Instrs {
+		if ins == ssa.Instruction(u) {
+			break
+		}
+		if st, ok := ins.(*ssa.Store); ok && st.Addr == ssa.Value(al) {
+			last = st.Val
+		}
+	}
+	if last != nil {
+		return last
+	}
+	return v
 }
